@@ -61,7 +61,11 @@ fn gen(rng: &mut StdRng, depth: usize, pat: bool) -> String {
         }
     };
     if pat && depth > 0 && rng.gen_bool(0.2) {
-        format!("{}[{} := {}]", base, gen(rng, depth - 1, pat), gen(rng, depth - 1, pat))
+        // one substitution suffix, or a CHAIN b[x := t][y := u].. (applied left to right)
+        let k = match rng.gen_range(0..10) { 0..=5 => 1, 6..=8 => 2, _ => 3 };
+        let mut s = base;
+        for _ in 0..k { s = format!("{}[{} := {}]", s, gen(rng, depth - 1, pat), gen(rng, depth - 1, pat)); }
+        s
     } else { base }
 }
 
